@@ -456,7 +456,7 @@ fn main() {
   }
   // free-running first-use stress: SAMPLED corroboration (labelled as such), in fresh processes
   let stress_info = {
-    let nproc: u64 = if quick { 32 } else { 320 }; // even: same-table rounds, odd: cross-table rounds
+    let nproc: u64 = if quick { 160 } else { 640 }; // even: same-table rounds, odd: cross-table rounds
     let items: Vec<u64> = (0..nproc).collect();
     // one child at a time: each child spins up to 15 threads on a gate, and the first uses only
     // overlap if every thread has a core of its own
